@@ -9,6 +9,17 @@ BASELINE = ("cd /repo && /venv/bin/python -m pytest -ra -q -p no:cacheprovider -
             "--continue-on-collection-errors")
 
 # id -> (technique, level text, level note, design ref)
+CHECKS_TAIL = {
+    'C20': ('property-based testing (Hypothesis): byte-level input snapshots, differential runs across container '
+            'representations, repeated calls, generated call histories over shared series / option dicts / model objects '
+            'vs fresh copies, NumPy-free child interpreter',
+            'A registry of ~30 public routines x container representations drawn per argument (lists, tuples, array.array, '
+            'contiguous / strided / reversed / F-ordered arrays, 2-D forms, SeriesContainer): inputs byte-identical after '
+            'the call, result equal to the canonical-container result, second call identical; histories sharing objects '
+            'must equal runs on fresh copies.',
+            'float64 series only; K-means seeded inside the case; routine-specific value correctness belongs to the other '
+            'properties (a canonical call that raises is skipped and counted).', 'DESIGN.md §3 C20'),
+}
 CHECKS = {
     'C01': ('property-based testing (Hypothesis) against an independent DP reference + exhaustive path '
             'enumeration on small cases',
@@ -108,6 +119,30 @@ CHECKS = {
             'unselected series (bitwise), monotone fit w.r.t. the reference DTW, step bound, c untouched.',
             'Trusts vlib/ref.py incl. the tie counting; default inner distance, no psi/max_step.',
             'DESIGN.md §3 C12'),
+    'C13': ('property-based testing (Hypothesis) against an O(n^2) reference (min over start points of the reference DTW) '
+            'plus generated operation histories compared with fresh objects',
+            'Generated (query, series, penalty, ndim, iterator parameters): matching function, best match (segment, path, '
+            'value), k-best iterator invariants, Python = C; histories of open/advance/best_match/align operations on one '
+            'alignment object must match fresh objects and leave its matrices bitwise unchanged. Iterators are consumed '
+            'through a bound so that a non-terminating iterator is a failure, not a hang.',
+            'Trusts vlib/ref.py; lengths <= 10.', 'DESIGN.md §3 C13'),
+    'C14': ('property-based testing (Hypothesis) against exhaustive search, generated call histories vs fresh objects, '
+            'pruning activity measured by wrapping the distance / lower-bound functions the search module sees',
+            'Generated (query, candidates with ties, k, window, penalty, constructed max_dist/max_value, use_lb, use_c, ndim) '
+            'and histories of kbest_matches/best_match/align with k going up, down and to None; answers must equal the '
+            'k smallest reference distances (indices up to ties) and the answers of a fresh object.',
+            'Trusts vlib/ref.py; thresholds never within 1e-6 of a candidate distance.', 'DESIGN.md §3 C14'),
+    'C15': ('property-based testing (Hypothesis): structural invariants of the returned clustering / linkage, a replay model '
+            'for tie-free matrices, SciPy as reference for LinkageTree, fit histories vs fresh models',
+            'Generated series and synthetic distance matrices (ties, inf entries), max_dist incl. exact entries, hooks, three '
+            'models; partition, monotone bounded merges equal to matrix entries, no mergeable prototypes left, tree shape, '
+            'scipy equality; fit A/B/A on one model equals fresh models.',
+            'Trusts scipy.cluster.hierarchy.linkage and vlib/ref.py.', 'DESIGN.md §3 C15'),
+    'C16': ('property-based testing (Hypothesis) with seeded library randomness: structural invariants and a nearest-mean '
+            'check against the reference DTW',
+            'Generated data sets (duplicates), k, seeds, initialisation modes, drop_stddev, max_it, options, engines; keys, '
+            'partition, k means, every series nearest to its own mean under the reference DTW, iteration bound, monitor callback.',
+            'Trusts vlib/ref.py; numpy/random seeded inside each case.', 'DESIGN.md §3 C16'),
     'C17': ('property-based testing (Hypothesis) + exhaustive enumeration of a small sub-space against an independent '
             'alignment DP and brute-force alignment enumeration',
             'Generated sequences/scoring schemes/traceback orders plus the complete sub-space {A,B}^(<=4) x {A,B}^(<=4) x '
@@ -115,6 +150,12 @@ CHECKS = {
             'alignment validated column by column and re-scored.',
             'Trusts vlib/props/c17.py reference DP (self-checked against brute force for |s1|+|s2|<=8); dyadic scores.',
             'DESIGN.md §3 C17'),
+    'C18': ('property-based testing (Hypothesis) against an independent evaluation of the documented recurrence (global and '
+            'cell-local), generated match histories checked against the untouched reference matrix and fresh objects',
+            'Generated (series, gamma, tau, delta, delta_factor, penalty, window, only_triu) for Python, C full, C compact + '
+            'expansion; histories of kbest_matches / kbest_matches_store / reset on one LocalConcurrences object (both '
+            'representations): paths contiguous, monotone, through positive cells, no reuse within an epoch, restart = fresh.',
+            'math.exp vs np.exp differences are within the 1e-9 tolerance; 1-D series; psi not generated.', 'DESIGN.md §3 C18'),
     'C19': ('property-based testing (Hypothesis) against closed-form formulas, monotonicity/range predicates and a '
             'round trip through return_params',
             'Generated arrays (shapes, zeros, duplicates, single elements) x methods x explicit/derived parameters x '
@@ -124,6 +165,7 @@ CHECKS = {
             'DESIGN.md §3 C19'),
 }
 NOT_YET = {}
+CHECKS.update(CHECKS_TAIL)
 
 def main():
     props = [json.loads(l) for l in open(os.path.join(ROOT, 'properties.jsonl'))]
